@@ -87,6 +87,15 @@ def tasks(tier):
                        attempt_timeout=at, timeout_class=tc, durs=[0, 3], dur_free=True,
                        loop=e.startswith("Async"), sleeper_async=e.startswith("Async"))
             out.append({"family": "caps-attempt-timeout", "cfg": cfg, "entry": e, "bound": 0})
+    # classifiers answering with Classification objects that carry a hint (not bare classes), and
+    # strategy tables that have entries for non-retryable classes
+    for mu, st, e in itertools.product([None, 1], [{"default": "ctx", "per": {}},
+                                                   {"default": "ctx", "per": {"P": "ctx", "A": "legacy", "U": "ctx"}}],
+                                       Q4 + ["RetryPolicyCfg.call", "AsyncRetryPolicy.execute"]):
+        cfg = dict(M=4, per_class={}, max_unknown=mu, strat=st, ra_ticks=1,
+                   alphabet=["ok", "x:T", "x:P+ra", "x:U+ra", "r:U+ra", "r:A+ra", "x:A", "x:P"])
+        out.append({"family": "caps-classification-objects", "cfg": cfg, "entry": e, "bound": 0,
+                    "weight": 3})
     # long runs: a cap of 8 or 9, and a cap of 1 whose class comes back after many other failures
     for pc, mu in [({"T": 8}, None), ({"T": 9, "U": 1}, None), ({}, 8), ({"U": 1, "T": 10}, 3)]:
         for e in Q4:
